@@ -301,7 +301,7 @@ func (c1 int64Const) unaryOp(op ast.OperatorType, typ reflect.Type) (constant, e
 
 func (c1 int64Const) binaryOp(op ast.OperatorType, c2 constant) (constant, error) {
 	if op == ast.OperatorLeftShift || op == ast.OperatorRightShift {
-		if err := shiftConstError(op, c2); err != nil {
+		if err := shiftConstError(op, c1, c2); err != nil {
 			return nil, err
 		}
 		sc := uint(c2.uint64())
@@ -508,7 +508,7 @@ func (c1 intConst) unaryOp(op ast.OperatorType, typ reflect.Type) (constant, err
 
 func (c1 intConst) binaryOp(op ast.OperatorType, c2 constant) (constant, error) {
 	if op == ast.OperatorLeftShift || op == ast.OperatorRightShift {
-		if err := shiftConstError(op, c2); err != nil {
+		if err := shiftConstError(op, c1, c2); err != nil {
 			return nil, err
 		}
 		sc := uint(c2.uint64())
@@ -1315,14 +1315,22 @@ var errShiftCountTooLarge = errors.New("shift count too large")
 var errShiftCountTruncatedToInteger = errors.New("shift count truncated to integer")
 var errConstantOverflowUint = errors.New("constant overflows uint")
 
+// maxShiftCount is the maximum count of a constant shift. As for gc, it is
+// enough to express the smallest float64.
+const maxShiftCount = 1023 - 1 + 52
+
 // shiftConstError returns an error that explain why c cannot be used as the
-// right operand in the shift expression op. Returns nil if c can be used.
-func shiftConstError(op ast.OperatorType, c constant) error {
+// right operand in the shift expression c1 op c. Returns nil if c can be used.
+func shiftConstError(op ast.OperatorType, c1, c constant) error {
 	if c, _ := c.representedBy(uintType); c != nil {
-		if op == ast.OperatorLeftShift {
+		if op == ast.OperatorLeftShift && !c1.zero() {
+			// The result would overflow.
 			if ok, _ := c.binaryOp(ast.OperatorGreaterEqual, int64Const(512)); ok.bool() {
 				return errShiftCountTooLarge
 			}
+		}
+		if ok, _ := c.binaryOp(ast.OperatorGreater, int64Const(maxShiftCount)); ok.bool() {
+			return errShiftCountTooLarge
 		}
 		return nil
 	}
